@@ -59,6 +59,14 @@ def build_pool(run, wd):
     octs = list(beh['msg'])
     octs[-1] = 56                      # stop signature damaged
     pool[7] = {'octets': octs, 'flat_json': None, 'queries': [], 'key': 41, 'tmpl': [12001, 2001]}
+    # message 8: message 1 with an identification whose local tables are not installed (centre 85, local table version 2):
+    # the decoder falls back to the WMO tables, the encoder - which does not normalise - refuses
+    o8 = list(pool[1]['octets'])
+    o8[12:14] = [0, 85]
+    o8[22] = 2
+    j8 = json.loads(json.dumps(pool[1]['flat_json']))
+    j8[1][2], j8[1][11] = 85, 2
+    pool[8] = dict(pool[1], octets=o8, flat_json=j8, key=1385)
     return pool
 
 
@@ -84,7 +92,7 @@ def run(run):
                 hist = [{'op': 'decode', 'm': m}, {'op': 'query', 'm': m}, {'op': 'render', 'm': m}, {'op': 'rewire', 'm': m}]
             jobs.append((m, hist))
             if m != 7:
-                jobs.append((m, [{'op': 'encode', 'm': m}]))
+                jobs.append((m, [{'op': 'encode', 'm': m}]))       # message 8: the reference result is the refusal
         with cf.ThreadPoolExecutor(8) as ex:
             futs = [ex.submit(run_worker, wd, 'ref%d_%d' % (i, m), {'pool': pool, 'histories': [h]}) for i, (m, h) in enumerate(jobs)]
             for (m, h), f in zip(jobs, futs):
@@ -94,17 +102,23 @@ def run(run):
         if 'error' not in ref[('decode_fails', 7)]:
             raise MachineryError('the damaged pool message decodes')
         for (op, m), res in ref.items():
+            if (op, m) == ('encode', 8):
+                if 'error' not in res:
+                    raise MachineryError('the encoder accepts the identification with missing local tables')
+                continue
             if op != 'decode_fails' and 'error' in res:        # incl. decode_ive: the lenient decode of the damaged message succeeds
                 raise MachineryError('reference run of %s(%d) failed: %r' % (op, m, res))
         # ---- the transition tours
         configs = [(1, -1), (2, 1), (1, 2), (2, 0)] if not thorough else [(1, -1), (1, 0), (1, 1), (1, 2), (2, -1), (2, 0), (2, 1), (2, 2), (3, 1)]
         if not thorough:
             configs = configs[seed() % 2::2] + [configs[(seed() + 1) % 4]]
+        configs = list(configs) + [(0, 1)]      # (0, .): the reduced pool {1, 3, 8} with the incomplete identification, real limit 2
         batches = []
         for (tgl, cmax) in configs:
-            consts = {'Msgs': '1..7', 'KeyOf': '<<' + ', '.join(str(keys.index(pool[m]['key']) + 1) for m in range(1, 8)) + '>>',
-                      'TmplOf': '<<' + ', '.join(str(tmpls.index(pool[m]['tmpl']) + 1) for m in range(1, 8)) + '>>',
-                      'Bad': '{7}', 'TgLimit': str(tgl), 'CompMax': str(cmax), 'MaxLen': '4' if thorough else '3'}
+            small = tgl == 0        # the reduced pool around the message whose tables are incomplete (see below)
+            consts = {'Msgs': '1..7' if not small else '{1, 3, 8}', 'KeyOf': '<<' + ', '.join(str(keys.index(pool[m]['key']) + 1) for m in range(1, 9)) + '>>',
+                      'TmplOf': '<<' + ', '.join(str(tmpls.index(pool[m]['tmpl']) + 1) for m in range(1, 9)) + '>>',
+                      'Bad': '{7}', 'Strict': '{8}' if small else '{}', 'TgLimit': str(tgl if not small else 2), 'CompMax': str(cmax), 'MaxLen': '4' if thorough else '3'}
             name = 'MC_caches_%d_%s' % (tgl, str(cmax).replace('-', 'm'))
             text = tlc.mc_module(name, ['Caches'], consts)
             cfg = tlc.mc_cfg(consts, invariants=['SizeBounded', 'NoDuplicateKeys', 'LastRequestedIsCached'], action_constraints=['EmitTransition'], view='View')
@@ -129,7 +143,7 @@ def run(run):
             for i in range(n):
                 part = hists[i::n]
                 if part:
-                    work.append(((tgl, cmax), part, {'pool': pool, 'histories': part, 'tg_limit': tgl, 'comp_max': cmax}))
+                    work.append(((tgl, cmax), part, {'pool': pool, 'histories': part, 'tg_limit': tgl or 2, 'comp_max': cmax}))
         with cf.ThreadPoolExecutor(12) as ex:
             futs = [ex.submit(run_worker, wd, 'w%d' % i, job) for i, (_, _, job) in enumerate(work)]
             for (cfgk, part, job), f in zip(work, futs):
